@@ -8,6 +8,15 @@ import (
 	"strings"
 
 	z "github.com/Oudwins/zog"
+	"github.com/Oudwins/zog/conf"
+	"github.com/Oudwins/zog/i18n"
+	"github.com/Oudwins/zog/i18n/en"
+	"github.com/Oudwins/zog/i18n/es"
+	zinternals "github.com/Oudwins/zog/internals"
+	"github.com/Oudwins/zog/parsers/zjson"
+	"github.com/Oudwins/zog/zconst"
+	"github.com/Oudwins/zog/zhttp"
+	"net/http/httptest"
 
 	"zogverif/internal/core"
 	"zogverif/internal/gen"
@@ -313,8 +322,112 @@ func c12SelfReported(c *core.Ctx) bool {
 	return true
 }
 
+// c12Directed: (a) an issue recorded through the deprecated ctx.NewError(path, issue) is an issue like any other: later PostTransforms do
+// not run; (b) the PostTransforms of a struct run once each, in order, also when the record comes from a front end that is consumed on
+// first use (zjson body, zhttp request); (c) with the i18n formatter installed, callbacks that run after an issue was formatted still
+// see exactly the context values of this call.
+func c12Directed(c *core.Ctx) bool {
+	type rec struct {
+		A string `json:"a" query:"a"`
+		B string `json:"b" query:"b"`
+	}
+	// (a)
+	for _, mode := range []string{"Parse", "Validate"} {
+		var calls []string
+		st := z.Struct(z.Schema{
+			"a": z.String().TestFunc(func(v any, ctx z.Ctx) bool {
+				pb := zinternals.NewPathBuilder()
+				ctx.NewError(pb.Push(ptr("a")), ctx.Issue().SetMessage("reported the old way"))
+				return true
+			}).PostTransform(func(p any, ctx z.Ctx) error { calls = append(calls, "a.post"); return nil }),
+			"b": z.String(),
+		}).PostTransform(func(p any, ctx z.Ctx) error { calls = append(calls, "struct.post"); return nil })
+		d := rec{A: "x", B: "y"}
+		var m z.ZogIssueMap
+		if mode == "Parse" {
+			m = st.Parse(map[string]any{"a": "x", "b": "y"}, &d)
+		} else {
+			m = st.Validate(&d)
+		}
+		c.Eval(1)
+		if len(calls) != 0 || len(m) == 0 {
+			c.Violation("post-transform-ran-although-an-issue-exists|"+mode, map[string]any{"schema": "a TestFunc records an issue with ctx.NewError(path, issue) (deprecated, still public) and returns true; PostTransforms on the same node and on the struct", "transforms_called": calls, "issues": fmt.Sprint(z.Issues.SanitizeMap(m))})
+			return false
+		}
+	}
+	// (b)
+	for _, front := range []string{"map", "zjson", "zhttp-json", "zhttp-query"} {
+		var calls []string
+		st := z.Struct(z.Schema{"a": z.String(), "b": z.String()}).
+			PostTransform(func(p any, ctx z.Ctx) error { calls = append(calls, "f1"); p.(*rec).A += "!"; return nil }).
+			PostTransform(func(p any, ctx z.Ctx) error { calls = append(calls, "f2"); p.(*rec).B += "?"; return nil })
+		var d rec
+		var data any
+		switch front {
+		case "map":
+			data = map[string]any{"a": "x", "b": "y"}
+		case "zjson":
+			data = zjson.Decode(strings.NewReader(`{"a":"x","b":"y"}`))
+		case "zhttp-json":
+			r := httptest.NewRequest("POST", "/", strings.NewReader(`{"a":"x","b":"y"}`))
+			r.Header.Set("Content-Type", "application/json")
+			data = zhttp.Request(r)
+		default:
+			data = zhttp.Request(httptest.NewRequest("GET", "/?a=x&b=y", nil))
+		}
+		m := st.Parse(data, &d)
+		c.Eval(1)
+		if strings.Join(calls, ",") != "f1,f2" || len(m) != 0 || d.A != "x!" || d.B != "y?" {
+			c.Violation("post-transform-order-or-count|Parse|"+front, map[string]any{"schema": "Struct{a, b}.PostTransform(f1: A += \"!\").PostTransform(f2: B += \"?\")", "front_end": front, "transforms_called": calls, "destination": fmt.Sprintf("%+v", d), "issues": fmt.Sprint(z.Issues.SanitizeMap(m)), "want": "f1,f2 once each; {A:x! B:y?}"})
+			return false
+		}
+	}
+	// (c)
+	saved := conf.IssueFormatter
+	defer func() { conf.IssueFormatter = saved }()
+	i18n.SetLanguagesErrsMap(map[string]zconst.LangMap{"en": en.Map, "es": es.Map}, "en")
+	for _, passed := range []any{nil, "fr", "es"} {
+		for _, mode := range []string{"Parse", "Validate"} {
+			var seen []any
+			look := func(v any, ctx z.Ctx) bool { seen = append(seen, ctx.Get("lang")); return true }
+			st := z.Struct(z.Schema{
+				"a": z.String().Min(5).TestFunc(look),
+				"b": z.String().TestFunc(look),
+			}).TestFunc(func(v any, ctx z.Ctx) bool { return look(v, ctx) })
+			var opts []z.ExecOption
+			if passed != nil {
+				opts = append(opts, z.WithCtxValue("lang", passed))
+			}
+			d := rec{A: "x", B: "y"}
+			if mode == "Parse" {
+				st.Parse(map[string]any{"a": "x", "b": "y"}, &d, opts...)
+			} else {
+				st.Validate(&d, opts...)
+			}
+			c.Eval(1)
+			for _, g := range seen {
+				if g != passed {
+					c.Violation("callback-context-values|"+mode, map[string]any{"schema": "i18n installed (en default, es); {a: String().Min(5).TestFunc(look), b: String().TestFunc(look)}.TestFunc(look); Min(5) fails and is formatted by the global formatter", "WithCtxValue(lang)": fmt.Sprint(passed), "ctx.Get(lang)_seen_by_the_callbacks": fmt.Sprint(seen)})
+					return false
+				}
+			}
+			if len(seen) != 3 {
+				c.Violation("callback-not-run|"+mode, map[string]any{"schema": "three look callbacks", "calls": len(seen)})
+				return false
+			}
+		}
+	}
+	c.Count("directed_callback_scenarios", 12)
+	return true
+}
+
+func ptr[T any](v T) *T { return &v }
+
 func (c12) RunCase(c *core.Ctx) {
 	if c.Case%40 == 11 && !c12SelfReported(c) {
+		return
+	}
+	if c.Case%40 == 13 && !c12Directed(c) {
 		return
 	}
 	if c.Case%40 == 12 {
@@ -325,6 +438,10 @@ func (c12) RunCase(c *core.Ctx) {
 		}
 		if problem := dNamedStringTests(); problem != "" {
 			c.Violation("callback-value-type", map[string]any{"schema": "StringSchema[dEnv].TestFunc(fn)", "observed": problem})
+			return
+		}
+		if problem, _ := dPreprocessAbsent(); problem != "" {
+			c.Violation("preprocess-argument", map[string]any{"schema": "Preprocess(func(n int) string, String().Required().Min(5)) as a struct field and as a slice element", "observed": problem})
 			return
 		}
 	}
